@@ -80,7 +80,8 @@ func runC05(c *kernel.Ctx) {
 	// interleaves them
 	// since the repair that serialises Swarm.merge the points inside it lie under a
 	// mutex: only its entry (before the lock) can be parked at
-	baton := &kernel.Baton{OnlySites: []string{"cluster.Swarm.merge:entry"}}
+	baton := kernel.NewBaton()
+	baton.OnlySites = []string{"cluster.Swarm.merge:entry"}
 	if c.Params["parkinside"] != "" {
 		baton.OnlySites = nil // for demonstrating the race on a tree without the lock
 	}
